@@ -394,6 +394,12 @@ theorem option_uses_classified :
 theorem comment_lists_clean :
     commentListWrites.filter (fun r => r.2.2 == 9) = [] := by decide +kernel
 
+/-- No option-guarded comment append (and no splicer-marker or comment-list append) targets a
+    list whose emptiness is tested in the same file (`if self.impl: write_file = True`) unless the
+    same statement list also appends code to it unconditionally: a comment cannot make a file appear. -/
+theorem no_guarded_append_decides_file :
+    fileDecisionAppends.filter (fun r => r.2.2 == 9) = [] := by decide +kernel
+
 /-- non-vacuity: the scan found guarded statements for each of the six options -/
 theorem guards_found :
     (List.range 6).all (fun o => guardedStmts.any (fun r => r.1 == o)) = true := by decide +kernel
